@@ -35,6 +35,17 @@ Proof. exact batched_stack_refines. Qed.
 Theorem C23x_close_settles : forall s, quiet s = true -> is_null s = false ->
   snd (wclose s) = ROk tt /\ wbase (fst (wclose s)) = wsettled s.
 Proof. exact close_settles. Qed.
+(* The view is the base minus the keys hidden by skipkeys layers; after batched.Flush the buffered
+   writes are in the base, hence in the view. *)
+Theorem C23x_view_hidden : forall s, wview s = sm_filter (fun k => negb (hidden s k)) (wbase s).
+Proof. exact wview_hidden. Qed.
+Theorem C23x_flush_shows_writes : forall pend u,
+  is_null u = false -> all_empty u = true ->
+  wbase (l_flush (WBatched pend u)) = wsettled (WBatched pend u) /\
+  wpending (l_flush (WBatched pend u)) = [] /\
+  wview (l_flush (WBatched pend u)) = sm_filter (fun k => negb (hidden u k)) (wsettled (WBatched pend u)).
+Proof. exact flush_shows_writes. Qed.
+
 (* With a readonly layer anywhere in the stack, every write is refused and nothing changes. *)
 Theorem C23x_readonly_stack_rejects : forall scale ops s,
   quiet s = true -> is_null s = false -> inner_empty s = true -> has_ro s = true ->
@@ -81,6 +92,8 @@ Print Assumptions C23x_stack_reads.
 Print Assumptions C23x_snapshot_reads.
 Print Assumptions C23x_batched_stack_refines.
 Print Assumptions C23x_close_settles.
+Print Assumptions C23x_view_hidden.
+Print Assumptions C23x_flush_shows_writes.
 Print Assumptions C23x_readonly_stack_rejects.
 Print Assumptions C23x_nokey_never_nil.
 Print Assumptions C23x_skiperrors_get.
